@@ -131,7 +131,8 @@ func (s *countPromOperator) GetTime() int64 {
 }
 
 type minPromOperator struct {
-	val float64
+	val  float64
+	init bool // val holds a value of the group (Prometheus starts from the group's first sample)
 }
 
 func NewMinPromOperator() aggOperator {
@@ -143,8 +144,9 @@ func NewMinPromOperator() aggOperator {
 func (s *minPromOperator) Compute(c Chunk, colLoc int, startRowLoc int, endRowLoc int, _ any) error {
 	vs := c.Column(colLoc).FloatValues()[startRowLoc:endRowLoc]
 	for i := 0; i < endRowLoc-startRowLoc; i++ {
-		if vs[i] < s.val || math.IsNaN(s.val) {
+		if !s.init || vs[i] < s.val || math.IsNaN(s.val) {
 			s.val = vs[i]
+			s.init = true
 		}
 	}
 	return nil
@@ -167,7 +169,8 @@ func (s *minPromOperator) GetTime() int64 {
 }
 
 type maxPromOperator struct {
-	val float64
+	val  float64
+	init bool // val holds a value of the group (Prometheus starts from the group's first sample)
 }
 
 func NewMaxPromOperator() aggOperator {
@@ -179,8 +182,9 @@ func NewMaxPromOperator() aggOperator {
 func (s *maxPromOperator) Compute(c Chunk, colLoc int, startRowLoc int, endRowLoc int, _ any) error {
 	for ; startRowLoc < endRowLoc; startRowLoc++ {
 		val := c.Column(colLoc).FloatValue(startRowLoc)
-		if val > s.val || math.IsNaN(s.val) {
+		if !s.init || val > s.val || math.IsNaN(s.val) {
 			s.val = val
+			s.init = true
 		}
 	}
 	return nil
